@@ -56,6 +56,8 @@ func init() {
 			Run: func(P *Program, R *Report) { relationShapeRule(P, R) }},
 		Rule{ID: "C12.l", Explain: "the challenge covers every relation of the range proof: in CommitmentsFromSecrets and CommitmentsFromProof the list returned by each sub-relation's contribution call flows into the returned list.",
 			Run: func(P *Program, R *Report) { contributionsKeptRule(P, R, "C12.l") }},
+		Rule{ID: "C12.q", Explain: "the challenge covers the prover-chosen bases (strong Fiat-Shamir): the C_i of a range proof are chosen by the prover and are bases of the verified relations, so they have to be fixed before the challenge is known - in CommitmentsFromProof the proof's Cs, and in CommitmentsFromSecrets the commitments c that BuildProof sends as Cs, are appended to the returned contribution list as they are, at the same place (before or after the relations) on both sides. Without it a prover picks C_i = R^(d_i) after seeing the challenge and proves a false inequality.",
+			Run: func(P *Program, R *Report) { rangeBasesHashedRule(P, R, "C12.q") }},
 		Rule{ID: "C12.f", Explain: "ProvesStatement is true only if the sign is 1 or -1 and equals the proof's, the (rescaled) factor equals the proof's A, and K equals the (rescaled) bound or compares to it in the direction of the sign.",
 			Run: func(P *Program, R *Report) { provesStatementRule(P, R) }},
 		Rule{ID: "C12.g", Explain: "the three-square rescaling (factor*4, bound*4-2) is the same symbolic term in NewProofStructure and ProvesStatement, ProvenStatement is its inverse ((K+2)>>2, A>>2), and the queried factor cannot wrap around.",
@@ -950,4 +952,78 @@ func contributionsKeptRule(P *Program, R *Report, rule string) {
 		}
 		R.decide(rule, k+":contributions-kept", "the contribution of every sub-relation (mCorrect, cRep[i]) is part of the returned list", n >= 2 && len(dropped) == 0, fmt.Sprintf("%d calls; result dropped: %s", n, strings.Join(dropped, ", ")), P.Pos(fn.Pos()))
 	}
+}
+
+// rangeBasesHashedRule: see C12.q.
+func rangeBasesHashedRule(P *Program, R *Report, rule string) {
+	// what the prover sends as Cs: the field of the commit that BuildProof copies into Proof.Cs
+	sent := ""
+	if bp := mustFunc(P, R, rule, "rangeproof.(*ProofStructure).BuildProof"); bp != nil {
+		allInstrs(bp, func(i ssa.Instruction) {
+			if c, ok := i.(*ssa.Call); ok && bigMethod(c) == "Set" {
+				if d := desc(callArgs(c)[1]); strings.HasPrefix(d, "<rangeproof.ProofCommit>.") || strings.HasPrefix(d, "<rangeproof.proofCommit>.") {
+					for _, r := range referrersOf(c) {
+						if st, ok := r.(*ssa.Store); ok && strings.HasPrefix(desc(st.Addr), "new:rangeproof.Proof.Cs[") || ok && strings.Contains(desc(st.Addr), ".Cs[") {
+							sent = d[:strings.LastIndex(d, "[")]
+						}
+					}
+				}
+			}
+		})
+		R.decide(rule, FuncKey(bp)+":sends", "BuildProof sends the commit's c as the proof's Cs", sent != "", "field: "+sent, P.Pos(bp.Pos()))
+	}
+	place := map[string]string{}
+	for _, k := range []string{kRPCFP, kRPCFS} {
+		fn := mustFunc(P, R, rule, k)
+		if fn == nil {
+			continue
+		}
+		want := rpP + ".Cs"
+		if k == kRPCFS {
+			want = sent
+		}
+		inResult := map[ssa.Value]bool{}
+		for _, r := range returnsOf(fn) {
+			if retCount(r) > 0 && !isNilConst(retValue(r, 0)) {
+				for v := range deps(P, retValue(r, 0)) {
+					inResult[v] = true
+				}
+			}
+		}
+		var firstRel *ssa.Call
+		for _, ci := range callsIn(fn) {
+			if c, ok := ci.(*ssa.Call); ok && strings.HasPrefix(calleeName(c), "zkproof.(*QrRepresentationProofStructure).CommitmentsFrom") && firstRel == nil {
+				firstRel = c
+			}
+		}
+		found, got := false, []string{}
+		for _, ci := range callsIn(fn) {
+			c, ok := ci.(*ssa.Call)
+			if !ok || !isCallTo(c, "builtin:append") || !inResult[c] || want == "" {
+				continue
+			}
+			tail, okT := seqTail(callArgs(c)[1], 0, map[ssa.Value]bool{})
+			if !okT {
+				continue
+			}
+			for _, e := range tail {
+				got = append(got, e.Kind+":"+e.D)
+				_, isLoad := e.V.(*ssa.UnOp)
+				if !isLoad {
+					continue
+				}
+				ed := strings.NewReplacer("new:rangeproof.ProofCommit.", "<rangeproof.ProofCommit>.", "new:rangeproof.proofCommit.", "<rangeproof.proofCommit>.").Replace(e.D)
+				if (e.Kind == "spread" && ed == want) || (e.Kind == "elem" && (ed == want+"[#i]" || ed == want+"[rangeindex]")) {
+					found = true
+					if firstRel != nil && deps(P, callArgs(firstRel)[2])[c] {
+						place[k] = "before the relations"
+					} else {
+						place[k] = "after the relations"
+					}
+				}
+			}
+		}
+		R.decide(rule, k+":bases-in-challenge", "the prover-chosen bases ("+want+") are appended, unchanged, to the returned contributions", found, "appended: "+strings.Join(got, ", "), P.Pos(fn.Pos()))
+	}
+	R.decide(rule, "both-sides:same-place", "prover and verifier put the bases at the same place of the list", place[kRPCFP] != "" && place[kRPCFP] == place[kRPCFS], fmt.Sprintf("verifier: %s; prover: %s", place[kRPCFP], place[kRPCFS]), "")
 }
